@@ -108,6 +108,10 @@ def cells(tier, seed):
                 for p in (0, 1):
                     out.append(mk("B", 3, M, k, p))
         out.append(mk("triv", 3, 2, 1, 0))
+    # large d=3 instances (basis size n = M^3 * 3^k beyond 591: |B_3| * n^2 > 2^24) - one in the quick tier, the rest thorough
+    out.append(mk("B", 3, 3, 3, 0))
+    if tier == "thorough":
+        out += [mk("B", 3, 3, 3, 1), mk("B", 3, 5, 2, 0), mk("rot", 3, 3, 3, 0), mk("B", 3, 4, 3, 0)]
     # every subgroup of B_2 (10) and of B_3 (98; quick: a seeded third of them at small M), given by generators
     import random
 
